@@ -10,6 +10,10 @@ def run_order(d, gfa_text, chromosome_order, by_chrom, with_sequence=False, fnam
               reuse_existing=False, via="api"):
     from gaftools.cli.order_gfa import run_order_gfa
 
+    if fname == "g.gfa" and len(gfa_text) % 5 == 0:
+        fname = "g{1}.gfa"  # file and directory names are not templates
+    if sub in ("out", "o1") and len(gfa_text) % 3 == 0:
+        sub = sub + "_{sample}"
     path = os.path.join(d, fname)
     if reuse_existing and os.path.exists(path):
         pass
